@@ -478,6 +478,25 @@ def r2_encoder(ctx):
             branches["tuple"] is branches.get("list")
         ctx.check(ok, v or fn, "tuple encoded as list",
                   "tuples are not encoded as the equal list")
+    # numbers inside a sequence take the path of scalar numbers (one
+    # representation for 1, 1.0 and True): the sequence is never converted
+    # as a whole, whose element type would be inferred from its entries
+    for nm in ("list", "tuple"):
+        for st in branches.get(nm, []):
+            for c in ast.walk(st):
+                if isinstance(c, ast.Call) and (call_name(c) or "") in (
+                        "np.array", "np.asarray", "np.asanyarray",
+                        "numpy.array", "numpy.asarray", "bytes", "bytearray",
+                        "np.fromiter", "array.array") and any(
+                        isinstance(a, ast.Name) and a.id == arg
+                        for a in c.args):
+                    ctx.fail(c, f"{nm} branch encodes entry by entry",
+                             f"the {nm} branch of obj2bytes converts the "
+                             f"whole sequence with `{norm(c)[:50]}`: the "
+                             "element type is inferred from the entries "
+                             "(int64 for [-1, 1], float64 for [-1.0, 1.0]), "
+                             "equal settings written with ints and with "
+                             "floats hash differently")
     if "dict" in branches:
         v = ret(branches["dict"])
         ok = v is not None and norm(v) in (
